@@ -3,7 +3,7 @@ import ast
 import os
 from pyvc.api import *
 
-SPEC_IMPORTS = ['contracts.common']
+SPEC_IMPORTS = ['contracts.common', 'contracts.load']
 SPEC_FUNCTIONS = ['window']
 
 _PN = Obj('PNode')
@@ -204,7 +204,9 @@ _check_fs = Contract(
     concrete_ensures=['PARSED_TEXT == EXPECTED_TEXT', 'PARSED_TEXT == REAL_TEXT'],
 )
 
-CONTRACTS = [_line, _column, _tree_start, _tree_string, _def_start, _def_end, _line_code, _def_ref, _side, _check_fs]
+from contracts import load as _loading
+CONTRACTS = [_line, _column, _tree_start, _tree_string, _def_start, _def_end, _line_code, _def_ref, _side, _check_fs,
+             _loading.load_python_module]
 
 
 def register(reg):
